@@ -1570,10 +1570,98 @@ def k19_part(ctx: vlib.Ctx, mod):
          imports="UnionModel UnionEmit K19Cases", gen_imports="From VerifGen Require Import K19.", needs=("theories/K19Cases.vo",))
 
 
+# ---------------------------------------------------------------------------
+# K21: the translated loops of pack_union vs the method text the real generator produces
+# ---------------------------------------------------------------------------
+def capture_pack_union_source(mod, tp):
+    import builtins
+    import mashumaro.core.meta.types.pack as _pack
+    got = []
+
+    def rec(src, g=None, l=None):
+        if "def __pack_union_" in src or "def __pack_type_var_" in src:
+            got.append(src)
+        return builtins.exec(src, g, l)
+    old = _pack.__dict__.get("exec")
+    _pack.exec = rec
+    try:
+        mod.__dict__["BasicEncoder"](tp)
+    finally:
+        if old is None:
+            del _pack.exec
+        else:
+            _pack.exec = old
+    return got[-1] if got else None
+
+
+def parse_pack_source(src: str):
+    lines = [x.strip() for x in src.splitlines()[1:] if x.strip() and not x.strip().startswith("setattr(")]
+    codes, i = [], 0
+    while i < len(lines):
+        ln = lines[i]
+        m1 = re.match(r"if value\.__class__ is (\w+):$", ln)
+        m2 = re.match(r"if value\.__class__ in \(([\w, ]+)\):$", ln)
+        if (m1 or m2) and i + 1 < len(lines) and lines[i + 1] == "return value":
+            names = [m1.group(1)] if m1 else [x.strip() for x in m2.group(1).split(",")]
+            codes.append(f"(QIdent [{'; '.join(coq_str(n) for n in names)}] {'true' if m2 else 'false'})"); i += 2
+        elif ln == "try:" and i + 3 < len(lines) and lines[i + 1].startswith("return ") and lines[i + 2] == "except Exception:" and lines[i + 3] == "pass":
+            codes.append("QTry"); i += 4
+        elif ln.startswith("raise "):
+            codes.append("QRaise"); i += 1
+        else:
+            return None
+    return codes
+
+
+def k21_part(ctx: vlib.Ctx, mod):
+    """(T) validation of kernel K21: line shapes (and the class names of the identity block) of the generated
+    pack method = what the translated loops (coq/gen/K21.v) emit for the same member list."""
+    if not ctx.kernel_report.get("K21", {}).get("ok", False):
+        ctx.not_shown("kernel K21", str(ctx.kernel_report.get("K21", {}).get("error")))
+        return
+    rng = ctx.rng
+    exprs = [e for e in CURATED_ENC_UNIONS if not e.startswith("Optional[")]
+    for _ in range(ctx.budget(120, 800)):
+        e, ent = gen_union_expr(rng, encode=True)
+        if ent != "typevar":
+            exprs.append(e)
+    cases, info, skipped = [], [], 0
+    for expr in exprs:
+        for _f in getattr(typing, "_cleanups", []):
+            _f()
+        tp = eval(expr, mod.__dict__)
+        members = list(typing.get_args(tp))
+        if typing.get_origin(tp) is not typing.Union or (len(members) == 2 and NoneType in members):
+            continue
+        src = capture_pack_union_source(mod, tp)
+        if src is None:
+            codes = ["QIdentity"]           # no method compiled: the union is the identity
+        else:
+            codes = parse_pack_source(src)
+            if codes is None:
+                ctx.not_shown("kernel K21 validation", f"unparsable pack method for {expr}: {src[:300]}")
+                continue
+        nonident = [m for m in members if not is_identity_packer(m)]
+        if codes.count("QTry") != len(nonident):
+            skipped += 1      # two members rendered to one expression
+            continue
+        lite = []
+        for i, m in enumerate(members):
+            cname = "NoneType" if m is NoneType else getattr(typing.get_origin(m) or m, "__name__", "x")
+            lite.append(f"({coq_str(cname)}, {'None' if is_identity_packer(m) else f'Some {i + 1}%nat'})")
+        cases.append(f"([{'; '.join(lite)}], [{'; '.join(codes)}])")
+        info.append((expr, " ".join(codes)))
+        ctx.count(("k21", tuple(member_label(m) for m in members)))
+    ctx.hist("k21_validation", "compared", len(cases))
+    ctx.hist("k21_validation", "skipped-duplicate-expression", skipped)
+    corr(ctx, "K21-translation-vs-generated-source", cases, info, "list (string * option nat) * list pcode", ["k21case_ok"],
+         imports="UnionModel PackEmit K21Cases", gen_imports="From VerifGen Require Import K21.", needs=("theories/K21Cases.vo",))
+
+
 THEOREMS = [
     "C11_union_decode_partial", "C11_union_deviation_char", "C11_union_shadow_result", "C11_union_none_refuted",
     "C11_union_shadow_refuted", "C11_no_cross_coercion", "C11_scalars_first_no_shadow", "C11_union_result_from_member",
-    "C11_union_raises_iff", "C11_none_member_never_raises", "C11_deterministic", "C11_union_dedup_invisible", "C11_nested_union_partial", "C11_shape_positions", "C11_typevar_constraints_win", "C11_typevar_partial", "C11_deep_decode_partial", "C11_deep_decode_refuted", "C11_union_emit_correct", "C11_union_emitted_partial", "C11_opt",
+    "C11_union_raises_iff", "C11_none_member_never_raises", "C11_deterministic", "C11_union_dedup_invisible", "C11_nested_union_partial", "C11_shape_positions", "C11_typevar_constraints_win", "C11_typevar_partial", "C11_deep_decode_partial", "C11_deep_decode_refuted", "C11_union_emit_correct", "C11_union_emitted_partial", "C11_pack_emit_correct", "C11_pack_emitted_partial", "C11_opt",
     "C11_union_encode_partial", "C11_union_encode_refuted", "C11_literal_full", "C11_literal_encode_full",
     "C11_literal_returns_listed", "C11_literal_accepts_listed",
 ]
@@ -1587,7 +1675,7 @@ def run(ctx: vlib.Ctx):
         "dataclass field, List element; inputs: 62 basic-form values of every scalar class, lists, dicts and garbage. "
         "distinct = (member mix in order, path, input class, verdict class, outcome). Literal: 1-4 listed values of "
         "int/bool/str/None/enum/bytes x 27 inputs.")
-    ctx.theorems("props/C11_union.vo", THEOREMS, kernels=["K19"])
+    ctx.theorems("props/C11_union.vo", THEOREMS, kernels=["K19", "K21"])
     ctx.trusted += [
         "UnionModel.v is hand-written from UnionUnpackerBuilder._add_body / pack_union / LiteralUnpackerBuilder / expr_or_maybe_none; "
         "tied to /repo only behaviourally (correspondence on every run), parametric in the member (un)packers whose behaviour is "
@@ -1617,6 +1705,7 @@ def run(ctx: vlib.Ctx):
     typevar_part(ctx, mod, mem)
     deep_part(ctx, mod, mem)
     k19_part(ctx, mod)
+    k21_part(ctx, mod)
 
 
 # ---------------------------------------------------------------------------
